@@ -279,6 +279,9 @@ struct Sys {
     /// specification derives the tree shape from the number of leaves).
     imap: Vec<u32>,
     spread: bool,
+    /// 0, or the period with which the leaves of the verify trees repeat (equal sibling nodes at the leaf level and
+    /// above); such runs make genuine verify calls only (a proof for one leaf is then a proof for its twins too)
+    dup: usize,
 }
 
 const SPREAD_S: [u32; 16] = [5, 133, 261, 6, 69, 197, 37, 65_541, 65_669, 16_777_221, 2_147_483_653, 2_147_483_781,
@@ -286,7 +289,7 @@ const SPREAD_S: [u32; 16] = [5, 133, 261, 6, 69, 197, 37, 65_541, 65_669, 16_777
 const SPREAD_P: [u32; 16] = [5, 133, 261, 6, 134, 0, 128, 256, 64, 192, 127, 255, 1, 129, 2, 130];
 
 impl Sys {
-    fn new(flavour: &str, mode: &str, u: usize, seed: u64, spread: bool) -> Sys {
+    fn new(flavour: &str, mode: &str, u: usize, seed: u64, spread: bool, dup: usize) -> Sys {
         let e = new_env(&LedgerCfg::default());
         let mut r = StdRng::seed_from_u64(seed);
         // Address::generate is a deterministic sequence per Env: skip a seeded number of addresses
@@ -309,7 +312,7 @@ impl Sys {
             f => panic!("flavour {f}"),
         };
         let vleaf = (0..2).map(|_| (0..u).map(|_| rand32(&mut r)).collect()).collect();
-        Sys { e, flavour: flavour.into(), mode: mode.into(), hk, u, r, verifier, dist, token, owner, receivers, vleaf, last_root: None, spread,
+        Sys { e, flavour: flavour.into(), mode: mode.into(), hk, u, r, verifier, dist, token, owner, receivers, vleaf, last_root: None, spread, dup,
               imap: (0..u).map(|k| if !spread || mode != "s" { k as u32 } else if mode == "s" { SPREAD_S[k % 16].wrapping_add((k / 16) as u32 * 1000) }
                                    else { SPREAD_P[k % 16] + (k / 16) as u32 * 300 }).collect() }
     }
@@ -357,7 +360,7 @@ impl Sys {
     }
 
     fn leaves(&self, claim: bool, salt: i64, n: usize) -> Vec<H32> {
-        (0..n).map(|k| if claim { self.cleaf(salt, k) } else { self.vleaf[salt as usize][k] }).collect()
+        (0..n).map(|k| if claim { self.cleaf(salt, k) } else { self.vleaf[salt as usize][if self.dup > 0 { k % self.dup } else { k }] }).collect()
     }
 
     fn bn(&self, x: &H32) -> BytesN<32> {
@@ -410,7 +413,7 @@ impl Sys {
 
     fn reset_event(&self) -> Value {
         json!({"op": {"op": "reset", "n": 0, "style": "none", "salt": 0, "pos": 0, "corr": "none", "i": 0, "j": 0,
-                      "flavour": self.flavour, "mode": self.mode, "u": self.u, "spread": self.spread},
+                      "flavour": self.flavour, "mode": self.mode, "u": self.u, "spread": self.spread, "dup": self.dup},
                "res": "ok", "ret": "na", "err": 0, "obs": self.obs()})
     }
 }
@@ -572,7 +575,8 @@ fn main() {
                 for fl in flavours {
                     // behaviours printed by TLC alternate between the two index maps; a replay names its own
                     let spread = b.cfg.get("spread").and_then(|v| v.as_bool()).unwrap_or(bi % 2 == 1);
-                    let mut sys = Sys::new(fl, &mode, u, 0xC17 + bi as u64, spread);
+                    let dup = b.cfg.get("dup").and_then(|v| v.as_u64()).unwrap_or(0) as usize;
+                    let mut sys = Sys::new(fl, &mode, u, 0xC17 + bi as u64, spread, dup);
                     t.reset(sys.reset_event());
                     for op in &b.ops {
                         let ev = sys.step(op);
@@ -594,7 +598,8 @@ fn main() {
                 // a few sorted-pair runs use chain-shaped trees of 33..40 leaves: honest proofs of 32 and more siblings
                 let deep = mode == "s" && (run / combos.len()) % 4 == 3;
                 let uu = if wide { 136 } else if deep { 40 } else { U };
-                let mut sys = Sys::new(fl, mode, uu, r.gen(), (run / combos.len()) % 2 == 1);
+                let dup = if fl != "airdrop" && (run / combos.len()) % 5 == 4 { *pick(&mut r, &[1usize, 2, 2]) } else { 0 };
+                let mut sys = Sys::new(fl, mode, uu, r.gen(), (run / combos.len()) % 2 == 1, dup);
                 t.reset(sys.reset_event());
                 let styles: &[&str] = if mode == "s" { &STYLES_S } else { &STYLES_P };
                 let nmax = if wide { 136 } else if deep { 40 } else { *pick(&mut r, &[4usize, 6, 9, 12]) };
@@ -613,6 +618,7 @@ fn main() {
                     } else {
                         *pick(&mut r, &["set_root", "claim", "claim", "claim", "claim", "claim", "verify", "verify", "verify", "verify"])
                     };
+                    let kind = if dup > 0 { "verify" } else { kind };
                     if r.gen_bool(0.06) {
                         t.step(sys.step(&mkop("advance", 0, "none", 0, 0, "none", 0, *pick(&mut r, &[1usize, 20, 600_000]))));
                         continue;
@@ -648,7 +654,7 @@ fn main() {
                     };
                     let hs = sys.hs();
                     let plen = hs.proof(&tr.1, &sys.leaves(false, tr.2, n), pos).len();
-                    let corr = if r.gen_bool(0.45) {
+                    let corr = if dup > 0 || r.gen_bool(0.45) {
                         "none"
                     } else if kind == "verify" {
                         *pick(&mut r, &["leaf", "alter", "swap", "drop", "extend", "index", "root", "other", "interior"])
